@@ -2,7 +2,7 @@ SPECIFICATION Spec
 CONSTANTS
   TMin = 0
   TMax = 15
-  Pts <- PtsU4
+  Pts <- PtsU4t
   MaxLen = 2
   FixTrunc = TRUE
   FixGuard = TRUE
@@ -10,6 +10,6 @@ CONSTANTS
   FixSkip = TRUE
   FixUncl = FALSE
   Emit = FALSE
-  WithBad = TRUE
+  WithBad = FALSE
 INVARIANT ImplEqualsClaimsE
 CHECK_DEADLOCK FALSE
